@@ -1,6 +1,7 @@
 package mon
 
 import (
+	"sort"
 	"sync"
 	"bytes"
 	"encoding/base64"
@@ -1023,6 +1024,56 @@ func c05CodeClass(spelling string) string {
 	return "mnemonic:" + spelling
 }
 
+// c05RdatalessText: the zone parser reads an entry that ends after the type - `name ttl class TYPE` - as
+// a record without RDATA (the form RFC 2136 prerequisites and deletions have); "whether it came from
+// unpacking wire data or from parsing text", the text String() gives for it is read back as the same record.
+func c05RdatalessText(w *core.W, j int) {
+	var names []string
+	for t, n := range dns.TypeToString {
+		if t == dns.TypeOPT || t == dns.TypeANY || t == dns.TypeNone || t == dns.TypeReserved || t == dns.TypeAXFR || t == dns.TypeIXFR || t == dns.TypeMAILA || t == dns.TypeMAILB || t == dns.TypeTSIG || t == dns.TypeTKEY {
+			continue
+		}
+		names = append(names, n)
+	}
+	sort.Strings(names)
+	for k, name := range names {
+		if k%2 != j%2 {
+			continue
+		}
+		text := "rdataless.example.\t300\tIN\t" + name
+		wit := map[string]any{"type": name, "zone_text": text}
+		var rr, back dns.RR
+		var err, err2 error
+		var out string
+		if w.Guard("NewRR/String(rdataless)", wit, func() {
+			rr, err = dns.NewRR(text)
+			if err == nil && rr != nil {
+				out = rr.String()
+				back, err2 = dns.NewRR(out)
+			}
+		}) {
+			continue
+		}
+		w.Eval(1)
+		if err != nil || rr == nil {
+			w.Count("rdataless_text_not_read", 1)
+			continue
+		}
+		w.Count("rdataless_text_records", 1)
+		wit["string"] = out
+		if err2 != nil || back == nil {
+			w.Violation("C05/rdataless-text-not-rereadable/"+name, fmt.Sprintf("%q is read as a %s record without RDATA; its String() %q is refused: %v", text, name, out, err2), wit)
+			continue
+		}
+		b1, e1 := packRR(rr)
+		b2, e2 := packRR(back)
+		if e1 != nil || e2 != nil || !bytes.Equal(b1, b2) {
+			w.Violation("C05/rdataless-text-not-rereadable/"+name, fmt.Sprintf("%q is read as a %s record without RDATA; its String() %q is read back as another record (%x vs %x, pack errors %v / %v)", text, name, out, b1, b2, e1, e2), wit)
+		}
+	}
+	w.NontrivialStr("rdataless-text", fmt.Sprint(j))
+}
+
 func init() {
 	nt := len(textLayouts())
 	plan, run := sections(
@@ -1031,6 +1082,7 @@ func init() {
 		section{"generic", tiered(nt*4, nt*60), c05Generic},
 		section{"random", tiered(6000, 200000), c05Random},
 		section{"zones", tiered(nt*12, nt*nt), c05Zone},
+		section{"rdataless-text", tiered(2, 2), c05RdatalessText},
 		concurrentSection("C05"),
 	)
 	core.Register(&core.Monitor{
